@@ -33,6 +33,7 @@ let handle (args : string list) : string =
     let p = List.map parse_line ls in
     (match check p with
      | Panic -> "panic"
+     | OutOfFuel -> "outoffuel"
      | Ok vs ->
        let one vd =
          let ch = uniq (changed_vars fuel p vd.vd_flagged) in
